@@ -10,7 +10,10 @@
 //!   `{"w":bits,"s":start,"e":end,"st":stride}` with signed bounds); the table of abstract
 //!   identifiers (`{"tid":…, "loc": AbstractLocation}`), the TIDs of the NULL-dereference warnings
 //!   (CWE476 of the "Memory" module), whether the fixpoint stabilised, and the seeds of the concrete
-//!   runs the Lean driver performs.
+//!   runs the Lean driver performs and, per run, explicit initial register values (`inits`, biased towards the
+//!   constants the program compares with). Besides the random programs a directed set is always generated:
+//!   one program per comparison operator × constant side × boundary constant (0, 1, -1, 2, MIN, MIN+1, MAX,
+//!   MAX-1) × operand width (1, 2, 4, 8 bytes) × negation.
 //! * `"null"`: one call of the real `State::check_def_for_null_dereferences` on a state whose address
 //!   register holds a given `Data` value: the decision (`false`/`true`/`err`) and the register value
 //!   afterwards.
@@ -18,7 +21,7 @@
 //!   subpiece` on generated values (`a`, `b`; all private fields through the serde derives): the result.
 //! * `"ev"`: one call of the real `pointer_inference::State::eval` on a state built with `State::new` +
 //!   `set_register` (register values `regs`, known global addresses `globals`) and a generated
-//!   well-sized expression: the result.
+//!   well-sized expression: the result, and the binding of `TGT` after `handle_register_assign(TGT, expr)`.
 //!   `DataDomain` values of these two kinds are written as `{"size","rel":[[id index, iv]…],"abs","top"}`
 //!   with `iv = {"w","s","e","st","lo","up","d"}` (signed bounds/hints, decimal strings above 64 bit);
 //!   identifier indices are positions in the `Ord`-sorted identifier pool `id_pool()`.
@@ -189,14 +192,10 @@ impl<'a> Gen<'a> {
         }
     }
     fn cmp(&mut self) -> Expression {
-        let op = *self.rng.pick(&[
-            BinOpType::IntEqual,
-            BinOpType::IntNotEqual,
-            BinOpType::IntLess,
-            BinOpType::IntSLess,
-            BinOpType::IntLessEqual,
-            BinOpType::IntSLessEqual,
-        ]);
+        if self.rng.chance(1, 2) {
+            return self.cmp_boundary();
+        }
+        let op = *self.rng.pick(&CMP_OPS);
         let (l, r) = match self.rng.below(4) {
             0 => (e_const(self.small(), 8), e_var(self.reg(), 8)),
             1 => (e_var(self.reg(), 8), e_var(self.reg(), 8)),
@@ -204,6 +203,25 @@ impl<'a> Gen<'a> {
             _ => (e_var(self.reg(), 8), e_const(self.small(), 8)),
         };
         e_bin(op, l, r)
+    }
+    /// a comparison of a (possibly truncated) register with a constant at or next to a boundary of the
+    /// operand width, constant on either side, possibly negated
+    fn cmp_boundary(&mut self) -> Expression {
+        let op = *self.rng.pick(&CMP_OPS);
+        let w = *self.rng.pick(&[8u64, 8, 8, 4, 2, 1]);
+        let c = match self.rng.below(4) {
+            0 => (self.small()) & mask_w(w),
+            1 => self.rng.next() & mask_w(w),
+            _ => *self.rng.pick(&boundary_consts(w)),
+        };
+        let reg = self.reg();
+        let x = cmp_operand(reg, w);
+        let e = if self.rng.chance(1, 2) { e_bin(op, e_const(c, w), x) } else { e_bin(op, x, e_const(c, w)) };
+        if self.rng.chance(1, 4) {
+            e_un(UnOpType::BoolNegate, e)
+        } else {
+            e
+        }
     }
     fn cond(&mut self, depth: u32) -> Expression {
         match self.rng.below(20) {
@@ -512,6 +530,211 @@ fn gen_project(rng: &mut Rng, out: &mut Out) -> Project {
 }
 
 // ------------------------------------------------------------------------------------------
+// comparisons against boundary constants
+
+const CMP_OPS: [BinOpType; 6] = [
+    BinOpType::IntEqual,
+    BinOpType::IntNotEqual,
+    BinOpType::IntLess,
+    BinOpType::IntLessEqual,
+    BinOpType::IntSLess,
+    BinOpType::IntSLessEqual,
+];
+
+fn mask_w(w: u64) -> u64 {
+    if w >= 8 {
+        u64::MAX
+    } else {
+        (1u64 << (8 * w)) - 1
+    }
+}
+
+/// 0, 1, -1, 2, MIN, MIN+1, MAX, MAX-1 of a `w`-byte operand (as bit patterns)
+fn boundary_consts(w: u64) -> Vec<u64> {
+    let m = mask_w(w);
+    let min = 1u64 << (8 * w - 1);
+    vec![0, 1, m, 2, min, min + 1, min - 1, min - 2]
+}
+
+/// the register itself, or its low `w` bytes
+fn cmp_operand(reg: &str, w: u64) -> Expression {
+    if w == 8 {
+        e_var(reg, 8)
+    } else {
+        e_sub(0, w, e_var(reg, 8))
+    }
+}
+
+/// `(register, constant, width)` for every comparison of a (truncated) register with a constant in `e`
+fn collect_cmps(e: &Expression, acc: &mut Vec<(String, u64, u64)>) {
+    fn operand(e: &Expression) -> Option<(String, u64)> {
+        match e {
+            Expression::Var(v) if v.size == ByteSize::new(8) => Some((v.name.clone(), 8)),
+            Expression::Subpiece { low_byte, size, arg } if *low_byte == ByteSize::new(0) => match &**arg {
+                Expression::Var(v) => Some((v.name.clone(), u64::from(*size))),
+                _ => None,
+            },
+            _ => None,
+        }
+    }
+    match e {
+        Expression::BinOp { op, lhs, rhs } => {
+            if CMP_OPS.contains(op) {
+                for (x, c) in [(&**lhs, &**rhs), (&**rhs, &**lhs)] {
+                    if let (Some((r, w)), Expression::Const(bv)) = (operand(x), c) {
+                        if let Ok(v) = bv.try_to_u64() {
+                            acc.push((r, v, w));
+                        }
+                    }
+                }
+            }
+            collect_cmps(lhs, acc);
+            collect_cmps(rhs, acc);
+        }
+        Expression::UnOp { arg, .. } | Expression::Cast { arg, .. } | Expression::Subpiece { arg, .. } => collect_cmps(arg, acc),
+        _ => (),
+    }
+}
+
+/// initial register values for the concrete runs, biased so that both outcomes of the comparisons of the
+/// program occur: per run (2 of 3) one compared register is set to the constant, its neighbours or another
+/// boundary of the operand width (upper bytes random)
+fn inits_around_comparisons(rng: &mut Rng, project: &Project, n_runs: usize) -> Value {
+    let mut cmps = Vec::new();
+    for s in project.program.term.subs.values() {
+        for b in &s.term.blocks {
+            for d in &b.term.defs {
+                if let Def::Assign { value, .. } = &d.term {
+                    collect_cmps(value, &mut cmps);
+                }
+            }
+            for j in &b.term.jmps {
+                if let Jmp::CBranch { condition, .. } = &j.term {
+                    collect_cmps(condition, &mut cmps);
+                }
+            }
+        }
+    }
+    let mut runs = Vec::new();
+    for _ in 0..n_runs {
+        if cmps.is_empty() || rng.chance(1, 3) {
+            runs.push(json!([]));
+            continue;
+        }
+        let (reg, c, w) = rng.pick(&cmps).clone();
+        let m = mask_w(w);
+        let low = match rng.below(8) {
+            0 | 1 => c,
+            2 => c.wrapping_add(1),
+            3 => c.wrapping_sub(1),
+            4 => c.wrapping_add(2),
+            5 => *rng.pick(&boundary_consts(w)),
+            6 => c.wrapping_sub(2),
+            _ => rng.next(),
+        } & m;
+        let upper = if rng.chance(1, 2) { 0 } else { rng.next() & !m };
+        runs.push(json!([[reg, 8, upper | low]]));
+    }
+    Value::Array(runs)
+}
+
+/// One program for a comparison `c op x` / `x op c` (possibly negated) on the low `w` bytes of RAX:
+/// ```text
+/// b0: [prep of RAX] [RBX := c | ZF := cond]; if cond goto bT; goto bF
+/// bT: RCX := RAX + 1; goto b3      bF: RDX := RAX - 1; goto b3      b3: return
+/// ```
+/// `variant`: 0 literal constant, 1 constant held in RBX, 2 condition through the flag ZF.
+/// `prep`: 0 RAX as it is (parameter), 1 `RAX := SExt(low byte of RAX) + k` with `k` such that the
+/// interval [k-128, k+127] contains `c`.
+/// Returns the project and the initial values of RAX for the runs (the constant, its neighbours, the
+/// boundaries of the width, random values).
+fn directed_cmp_project(rng: &mut Rng, op: BinOpType, const_left: bool, c: u64, w: u64, neg: bool, variant: u64, prep: u64) -> (Project, Value) {
+    let m = mask_w(w);
+    let mut b0 = Vec::new();
+    // signed reading of the constant, sign extended to 64 bits
+    let c_signed: i64 = if w == 8 { c as i64 } else { ((c << (64 - 8 * w)) as i64) >> (64 - 8 * w) };
+    let d: i64 = rng.range(-3, 3);
+    let k = c_signed.wrapping_sub(d);
+    if prep == 1 {
+        b0.push(d_assign(
+            "f0_b0_p",
+            var("RAX", 8),
+            e_bin(BinOpType::IntAdd, e_cast(CastOpType::IntSExt, 8, e_sub(0, 1, e_var("RAX", 8))), e_const(k as u64, 8)),
+        ));
+    }
+    let cexpr = if variant == 1 {
+        b0.push(d_assign("f0_b0_c", var("RBX", 8), e_const(c, 8)));
+        cmp_operand("RBX", w)
+    } else {
+        e_const(c, w)
+    };
+    let x = cmp_operand("RAX", w);
+    let mut cond = if const_left { e_bin(op, cexpr, x) } else { e_bin(op, x, cexpr) };
+    if neg {
+        cond = e_un(UnOpType::BoolNegate, cond);
+    }
+    if variant == 2 {
+        b0.push(d_assign("f0_b0_f", var("ZF", 1), cond));
+        cond = e_var("ZF", 1);
+    }
+    let blocks = vec![
+        blk("f0_b0", b0, vec![j_cbranch("f0_b0_j0", "f0_bT", cond), j_branch("f0_b0_j1", "f0_bF")]),
+        blk("f0_bT", vec![d_assign("f0_bT_u", var("RCX", 8), e_bin(BinOpType::IntAdd, e_var("RAX", 8), e_const(1, 8)))], vec![j_branch("f0_bT_j0", "f0_b3")]),
+        blk("f0_bF", vec![d_assign("f0_bF_u", var("RDX", 8), e_bin(BinOpType::IntSub, e_var("RAX", 8), e_const(1, 8)))], vec![j_branch("f0_bF_j0", "f0_b3")]),
+        blk("f0_b3", vec![], vec![j_return("f0_b3_j0", Expression::Var(tmp("$ret", 8)))]),
+    ];
+    let project = project_x64(program(vec![sub("f0", "fn0", blocks, None)], vec![], vec![tid("f0")]));
+    // values the compared operand shall take
+    let mut targets: Vec<u64> = vec![c, c.wrapping_add(1) & m, c.wrapping_sub(1) & m, c.wrapping_add(2) & m];
+    targets.extend(boundary_consts(w));
+    targets.push(rng.next() & m);
+    targets.push(rng.below(100) & m);
+    let mut runs = Vec::new();
+    for t in targets {
+        let upper = if w == 8 || rng.chance(1, 2) { 0 } else { rng.next() & !m };
+        let init = if prep == 1 {
+            // RAX becomes sext(low byte) + k: choose the low byte such that the low `w` bytes become `t`, if possible
+            let want = (t.wrapping_sub(k as u64)) & m; // sext(b) must be ≡ want (mod 2^(8w))
+            let want_signed: i64 = if w == 8 { want as i64 } else { ((want << (64 - 8 * w)) as i64) >> (64 - 8 * w) };
+            if (-128..=127).contains(&want_signed) {
+                (rng.next() & !0xff) | (want_signed as u8 as u64)
+            } else {
+                rng.next()
+            }
+        } else {
+            upper | t
+        };
+        runs.push(json!([["RAX", 8, init]]));
+    }
+    (project, Value::Array(runs))
+}
+
+/// the directed always-run set: every operator × orientation × boundary constant × width × negation
+fn gen_directed_cmps(rng: &mut Rng, out: &mut Out, stride: u64) {
+    let mut idx = 0u64;
+    for w in [8u64, 4, 2, 1] {
+        for op in CMP_OPS {
+            for const_left in [true, false] {
+                for c in boundary_consts(w) {
+                    for neg in [false, true] {
+                        idx += 1;
+                        if idx % stride != 0 {
+                            continue;
+                        }
+                        let variant = idx % 3;
+                        let prep = (idx / 3) % 2;
+                        let (project, inits) = directed_cmp_project(rng, op, const_left, c, w, neg, variant, prep);
+                        let seeds: Vec<u64> = inits.as_array().unwrap().iter().map(|_| rng.next() >> 12).collect();
+                        out.count("gen:directed-comparison");
+                        emit_pi(out, &project, &seeds, &inits);
+                    }
+                }
+            }
+        }
+    }
+}
+
+// ------------------------------------------------------------------------------------------
 // running the real analysis
 
 fn eval_pi(project: &Project) -> Value {
@@ -558,7 +781,7 @@ fn eval_pi(project: &Project) -> Value {
     }
 }
 
-fn emit_pi(out: &mut Out, project: &Project, seeds: &[u64]) {
+fn emit_pi(out: &mut Out, project: &Project, seeds: &[u64], inits: &Value) {
     let r = eval_pi(project);
     let pj = project_to_json(project);
     let mut nontrivial = false;
@@ -578,7 +801,7 @@ fn emit_pi(out: &mut Out, project: &Project, seeds: &[u64]) {
     } else {
         out.count("pi:panic");
     }
-    let line = json!({"q": "pi", "project": pj, "fn": "f0", "impl": r, "seeds": seeds}).to_string();
+    let line = json!({"q": "pi", "project": pj, "fn": "f0", "impl": r, "seeds": seeds, "inits": inits}).to_string();
     let key = pj.to_string();
     out.case(&line, if nontrivial { Some(&key) } else { None });
 }
@@ -1132,7 +1355,12 @@ fn eval_ev(regs: &Value, globals: &Value, expr: &Expression) -> Value {
             st.set_register(&v, dec_data(&e[2]));
         }
         assert_eq!(id_pool()[global_id_index()], st.get_global_mem_id());
-        enc_data(&st.eval(&expr))
+        let value = st.eval(&expr);
+        // the transfer function of `Def::Assign` on the register part: `TGT := expr`, then `RBX := TGT - RBX`-style
+        // reads are covered by the evaluation above; here the binding of the target is observed
+        let target = var("TGT", u64::from(expr.bytesize()));
+        st.handle_register_assign(&target, &expr);
+        json!({"value": enc_data(&value), "assigned": enc_data(&st.get_register(&target))})
     });
     match r {
         Ok(v) => v,
@@ -1141,14 +1369,15 @@ fn eval_ev(regs: &Value, globals: &Value, expr: &Expression) -> Value {
 }
 
 fn emit_ev(out: &mut Out, regs: &Value, globals: &Value, expr: &Expression, seed: u64) {
-    let r = eval_ev(regs, globals, expr);
+    let full = eval_ev(regs, globals, expr);
+    let (r, assigned) = if full.is_string() { (full.clone(), Value::Null) } else { (full["value"].clone(), full["assigned"].clone()) };
     if r.is_string() {
         out.count("ev:panic");
     } else {
         out.count(&format!("ev:result-{}", shape(&r)));
     }
     let ej = serde_json::to_value(expr).unwrap();
-    let line = json!({"q": "ev", "regs": regs, "globals": globals, "gid": global_id_index(), "expr": ej, "seed": seed, "impl": r}).to_string();
+    let line = json!({"q": "ev", "regs": regs, "globals": globals, "gid": global_id_index(), "expr": ej, "seed": seed, "impl": r, "assigned": assigned}).to_string();
     let key = format!("{}|{}|{}", regs, globals, ej);
     let nontrivial = !r.is_string() && shape(&r) != "top";
     out.case(&line, if nontrivial { Some(&key) } else { None });
@@ -1201,6 +1430,8 @@ fn main() {
     let mut out = Out::new(
         &args,
         "generated single-function programs (2-7 blocks, loops and branches, register arithmetic, comparisons and flags, \
+         comparisons against boundary constants of 1/2/4/8-byte operands on either side incl. a directed set of 768 programs \
+         [operator x side x boundary constant x width x negation], initial states biased around the compared constants, \
          stack loads/stores at constant offsets incl. narrow accesses and frame pointer) analysed by the real function-signature \
          + pointer-inference fixpoint; per program several concrete runs in the Lean reference interpreter; plus direct calls of \
          State::check_def_for_null_dereferences; plus direct calls of DataDomain<IntervalDomain>::bin_op/un_op/cast/subpiece on \
@@ -1231,7 +1462,7 @@ fn main() {
             } else {
                 let project = project_from_json(&v["project"]);
                 let seeds: Vec<u64> = v["seeds"].as_array().map(|a| a.iter().filter_map(|x| x.as_u64()).collect()).unwrap_or_default();
-                emit_pi(&mut out, &project, &seeds);
+                emit_pi(&mut out, &project, &seeds, &v["inits"]);
             }
         }
         out.finish();
@@ -1243,8 +1474,12 @@ fn main() {
     for _ in 0..n {
         let project = gen_project(&mut rng, &mut out);
         let seeds: Vec<u64> = (0..n_seeds).map(|_| rng.next() >> 12).collect();
-        emit_pi(&mut out, &project, &seeds);
+        let inits = inits_around_comparisons(&mut rng, &project, seeds.len());
+        emit_pi(&mut out, &project, &seeds, &inits);
     }
+    // directed comparison programs: always the same set, in every tier
+    let stride = args.num("cmpstride", 1, 1);
+    gen_directed_cmps(&mut rng, &mut out, stride);
     let n_null = args.num("nullchecks", 600, 20000);
     for _ in 0..n_null {
         gen_null(&mut rng, &mut out);
